@@ -2,7 +2,7 @@
    closed, and everything that is sent in the step - to anybody - is the concatenation, over the DISTINCT targets of the line,
    of what the one-target rule prescribes (C01_channel_exactly_once, C01_nick_target, C10): no other copy, no other line. *)
 From IRC Require Import Str Wild Glob Mask Parse Reply State Handlers Step.
-From IRCP Require Import StrP InvDefs InvPrims InvNick InvHandlers InvStep Reach ModesFrame MsgP KickGlobal.
+From IRCP Require Import StrP InvDefs InvPrims InvNick InvHandlers InvStep Reach ModesFrame MsgP OperP KickGlobal.
 From stdpp Require Import gmap.
 Open Scope N_scope.
 
@@ -56,6 +56,28 @@ Proof.
   assert (keeps (sh w) (h_sh r)) as Kp by (rewrite Es; apply keeps_refl).
   destruct (plain_line_step_out w i l c r w' o cl I H Hc Hr Q Kp) as [E1 [E2 [E3 E4]]].
   split; [congruence|]. split; [exact E4|]. rewrite E3. exact (notice_silent cfg i (sh w) c targets text r El).
+Qed.
+
+(* a WALLOPS line as a whole step: from a (local) operator one copy to exactly the users with +w; from anybody else the one
+   481 to the sender and NOTHING to anybody else; the state is unchanged and nobody is closed *)
+Theorem wallops_step w i l msg text c w' o cl : Inv w -> step cfg verify w i (EvLine l) = Ok (w', o, cl) ->
+  conns w !! i = Some c -> c_auth c = true -> tokenize l = inl msg -> command_of_message msg = inl (WALLOPS text) ->
+  sh w' = sh w /\ cl = [] /\
+  exists nick u, c_nick c = Some nick /\ users (sh w) !! nick = Some u /\
+    if is_local_oper (u_modes u)
+    then Forall2 (delivered (sh w) (to_string_with_source msg (c_source c))) (elements (wallops (sh w))) o
+    else o = [(i, srv cfg (err_noprivileges (client_name c)))].
+Proof.
+  intros I H Hc A Ht Hcmd. pose proof (InvK_of_Inv w I) as K.
+  destruct (own_user i (sh w) c (ik_cu w K i c Hc) A) as [nick [u [Hn [Hu [Hcu [Ho Hg]]]]]].
+  assert (process_line cfg verify i (sh w) c l = process_wallops cfg i (sh w) c msg) as El.
+  { unfold process_line. rewrite Ht, Hcmd, A. reflexivity. }
+  destruct (process_line cfg verify i (sh w) c l) as [r|] eqn:Hr.
+  2:{ exfalso. unfold step in H. cbn [step_raw] in H. rewrite Hc, Hr in H. discriminate H. }
+  symmetry in El. destruct (wallops_spec cfg i (sh w) c nick u msg r Hn Hu El) as [Es [Ec [Q Sp]]].
+  assert (keeps (sh w) (h_sh r)) as Kp by (rewrite Es; apply keeps_refl).
+  destruct (plain_line_step_out w i l c r w' o cl I H Hc Hr Q Kp) as [E1 [E2 [E3 E4]]].
+  split; [congruence|]. split; [exact E4|]. exists nick, u. split; [exact Hn|]. split; [exact Hu|]. rewrite E3. exact Sp.
 Qed.
 
 End global.
